@@ -243,6 +243,12 @@ def r2_writes_after_success(ctx):
                         path.env['exit'] = 'SUCCESS'
                 return None
 
+        from ..inline import inlined
+        # generate() may be split into private phases (analyse / emit) of the binary crate: put back the ones that lead to the build or the writers
+        from ..callgraph import CallGraph
+        cge = CallGraph(ctx.fb, [('pavexc', 'Executable')])
+        lead = cge.reaching({APP_BUILD, PX + 'app::App::codegen', PX + 'generated_app::GeneratedApp::persist', PX + 'app::App::persist_flat'})
+        gen = inlined(ctx.fb, gen, only=lambda cb: cb.nroot in lead)
         results = {}
         for bcase in ('res:Ok', 'res:Err'):
             for ccase in ('res:Ok', 'res:Err'):
@@ -264,7 +270,10 @@ def r2_writes_after_success(ctx):
                'generate() interpreted with build and codegen succeeding: GeneratedApp::persist is reached (%s) and a path returns ExitCode::SUCCESS'
                % bool(sem_o.seen.get('w:persist')), nontrivial=False)
     # has_errored: None severity counts
+    # the predicate "this diagnostic counts as an error" lives in has_errored, or (if the sink keeps a running count) where diagnostics are pushed
     he = ctx.fb.bodies_of_item('pavexc', SINK + 'has_errored')
+    if he:
+        he = he + [x for x in ctx.fb.bodies('pavexc') if not x.is_promoted and x not in he and x.file == he[0].file]
     if ctx.need('C09.R2', 'DiagnosticSink::has_errored', he):
         none_ok = False
         err_cmp = False
@@ -423,6 +432,11 @@ def r4_nothing_assumes_success_before_the_gate(ctx):
              '— otherwise a rejected component turns into a panic instead of the diagnostic that was already pushed.')
     g, mp = cg(ctx)
     b = ctx.need('C09.R4', 'App::build', ctx.fb.body('pavexc', APP_BUILD))
+    if b is not None:
+        from ..inline import inlined
+        # with the private helpers of app.rs and a `checkpoint()`-style gate helper of the sink put back (same view as C08.R3)
+        b = inlined(ctx.fb, b, also=lambda cb: cb.nid.startswith(SINK) and cb.nid != SINK + 'has_errored' and cb.raw.get('vis') != 'Public',
+                    keep={SINK + 'has_errored'}, depth=3, only=lambda cb: cb.file == b.file or cb.nid.startswith(SINK))
     if b is None:
         return
     gates = [bb for bb, t in b.calls() if callee(t) == SINK + 'has_errored']
